@@ -14,8 +14,10 @@ PATTERN = {1: (None, None), 2: (0, None), 3: (None, 0), 4: (1, None), 5: (-1, No
 CONES = ['none', 'norm2', 'square', 'sumsqr', 'exp', 'log', 'norm2+exp',
          # robust / distributionally robust rows: the standard form is the COUNTERPART, whose cone variables are
          # multipliers used directly in rows (not auxiliary copies), with coefficients such as the radius of the set
-         'ro-box', 'ro-norm2r2', 'ro-norm1', 'ro-norm2half', 'ro-sumsqr', 'dro-box', 'dro-norm2r2']
-SOC_CONES = ('norm2', 'square', 'sumsqr', 'ro-norm2r2', 'ro-norm2half', 'ro-sumsqr', 'dro-norm2r2')
+         'ro-box', 'ro-norm2r2', 'ro-norm1', 'ro-norm2half', 'ro-sumsqr', 'dro-box', 'dro-norm2r2',
+         # a robust OBJECTIVE over a ball of radius 2: the cone head enters the epigraph row with coefficient 2 (general path of the SOC dual)
+         'roobj-norm2r2', 'roobj-norm2half']
+SOC_CONES = ('norm2', 'square', 'sumsqr', 'ro-norm2r2', 'ro-norm2half', 'ro-sumsqr', 'dro-norm2r2', 'roobj-norm2r2', 'roobj-norm2half')
 
 
 def build(job):
@@ -51,6 +53,12 @@ def build(job):
             m.minsup(obj @ x, fset)
         else:
             m.maxinf(-obj @ x, fset)
+    elif cone.startswith('roobj-'):
+        zo = m.rvar(nc)
+        if job.get('sense', 'min') == 'min':
+            m.minmax(obj @ x + x @ zo + 2 * zo[0], *sets[cone[6:]](zo))
+        else:
+            m.maxmin(-obj @ x - x @ zo - 2 * zo[0], *sets[cone[6:]](zo))
     elif job.get('sense', 'min') == 'min':
         m.min(obj @ x)
     else:
@@ -135,8 +143,11 @@ def _replay(job, phase):
     D = m.do_math(primal=False)
     Dj = prog_json(D)
     P2 = m.do_math()
+    def sane(f):
+        lb, ub = np.asarray(f.lb, dtype=float), np.asarray(f.ub, dtype=float)
+        return not bool(np.any(lb == np.inf) or np.any(ub == -np.inf) or np.any(lb > ub) or np.any(np.isnan(lb)) or np.any(np.isnan(ub)))
     out = dict(tid=job['tid'], P=Pj, D=Dj, xmat=len(getattr(P, 'xmat', [])), qmat=len(getattr(P, 'qmat', [])),
-               primal_is_cached=(P2 is P))
+               primal_is_cached=(P2 is P), bounds_sane=dict(primal=sane(P), dual=sane(D)))
     phase[0] = 'solve'
     del _raised[:]
     solver = job['solver']
